@@ -1,6 +1,7 @@
 import IastModel.Rewriter.Rewrite
 import IastModel.Spec.Erase
 import IastModel.Props.C07
+import IastModel.Lemmas.EffBlock
 /-
   C02 — rewriting only adds instrumentation: erasing it gives back the input program.
   Proved so far: the erasure of a hook call is the erasure of its first argument (whatever the
@@ -67,5 +68,28 @@ theorem dropPrologue_insert (pro body : List Node) (hne : pro ≠ [])
 theorem prologue_removable (dsts : List String) (body : List Node) :
     dropPrologue (prologue dsts) (insertAt body (variableInsertionIndex body) (prologue dsts)) = body :=
   dropPrologue_insert (prologue dsts) body (by simp [prologue]) (C07.prologue_head_not_directive dsts)
+
+
+/-! ### nothing is duplicated, nothing is lost -/
+
+/-- **C02 / C01 (linearity of effect nodes).**  For every configuration, fuel and source program
+    (hypotheses as in `master`, checked by the driver on every input), unless the rewrite is refused,
+    the output is `p1`, or `p1` with the file prologue inserted, where `p1` contains exactly as many
+    effect nodes as the source: calls other than hook calls, optional calls, `new`, `++`/`--`,
+    `yield`, `await`, tagged templates, function / class / object expressions, `delete`, template
+    literals, and assignments to anything but an injected temporary.  A transform that evaluated an
+    operand twice (as `super[k()] += s` did before a700f28) or dropped one cannot satisfy this. -/
+theorem effect_nodes_preserved (cfg : Config) (fuel : Nat) (p : Node) (h0 : ns p = 0) (ht : targetsOk p = true)
+    (hnc : (transformProgram cfg fuel p).status ≠ .cancelled) :
+    ∃ p1, eff p1 = eff p ∧
+      (transformProgram cfg fuel p).out =
+        (if (transformProgram cfg fuel p).status = .modified then insertPrologue (prologue cfg.dsts) p1 else p1) :=
+  effect_nodes_preserved_master cfg fuel p h0 ht hnc
+
+/-- the operation visitor alone: same number of effect nodes before and after -/
+theorem visit_preserves_effect_nodes (cfg : Config) (f : Nat) (root : Bool) (n : Node) (s : St)
+    (h0 : ns n = 0) (ht : targetsOk n = true) (hs : s.status ≠ .cancelled) :
+    eff (visit cfg f root n s).1 = eff n :=
+  visit_E cfg (okCfg cfg) (cfgOk_dsts cfg) f root n s h0 ht hs
 
 end IastModel.C02
